@@ -406,6 +406,9 @@ def run_xml(ctx):
     else:
         protected_model = protected
         ctx.extra["xslt_protected"] = protected
+        if sorted(protected) != sorted(EXPECTED_PROTECTED):
+            ctx.fail("tie:xslt:protected-list", f"the stylesheet protects {protected}, the property names {EXPECTED_PROTECTED}",
+                     {"kind": "broken-tie", "stylesheet": protected, "property": EXPECTED_PROTECTED}, concrete=False)
     rng = ctx.rng
     n_docs = 2500 if ctx.tier == "thorough" else 350
     docs = [(d, False) for d in FIXED_DOCS]
@@ -451,7 +454,7 @@ def run_xml(ctx):
         if x_skeleton(o1) != x_skeleton(inp):
             fail("C20:xml:structure", "elements / attribute names / order changed")
             continue
-        stmt = xml_statement(inp, o1, protected_model if protected is None else protected)
+        stmt = xml_statement(inp, o1, EXPECTED_PROTECTED)      # the list of the PROPERTY TEXT, not the stylesheet's
         for key, what in stmt[:2]:
             fail(key, what)
         try:
